@@ -26,6 +26,7 @@ import (
 	"strconv"
 	"strings"
 	"sync"
+	"sync/atomic"
 	"time"
 
 	"github.com/tjfoc/gmsm/gmtls"
@@ -320,6 +321,7 @@ func hsOnce(p hsParams, sh *hsShared) string {
 		panicked bool
 	}
 	var cs, ss side
+	var cFailed, sFailed int32
 	var cconn, sconn rw
 	var wg sync.WaitGroup
 	wg.Add(2)
@@ -348,6 +350,9 @@ func hsOnce(p hsParams, sh *hsShared) string {
 			c := tls.Client(cEnd, cfg)
 			cconn = c
 			cs.err = c.Handshake()
+			if cs.err != nil {
+				atomic.StoreInt32(&cFailed, 1)
+			}
 			if cs.err == nil {
 				st := c.ConnectionState()
 				cs.vers, cs.suite = st.Version, st.CipherSuite
@@ -383,6 +388,9 @@ func hsOnce(p hsParams, sh *hsShared) string {
 		c := gmtls.Client(cEnd, cfg)
 		cconn = c
 		cs.err = c.Handshake()
+		if cs.err != nil {
+			atomic.StoreInt32(&cFailed, 1)
+		}
 		if cs.err == nil {
 			st := c.ConnectionState()
 			cs.vers, cs.suite = st.Version, st.CipherSuite
@@ -409,6 +417,9 @@ func hsOnce(p hsParams, sh *hsShared) string {
 			s := tls.Server(sEnd, cfg)
 			sconn = s
 			ss.err = s.Handshake()
+			if ss.err != nil {
+				atomic.StoreInt32(&sFailed, 1)
+			}
 			if ss.err == nil {
 				st := s.ConnectionState()
 				ss.vers, ss.suite = st.Version, st.CipherSuite
@@ -428,6 +439,9 @@ func hsOnce(p hsParams, sh *hsShared) string {
 		s := gmtls.Server(sEnd, cfg)
 		sconn = s
 		ss.err = s.Handshake()
+		if ss.err != nil {
+			atomic.StoreInt32(&sFailed, 1)
+		}
 		if ss.err == nil {
 			st := s.ConnectionState()
 			ss.vers, ss.suite = st.Version, st.CipherSuite
@@ -440,16 +454,25 @@ func hsOnce(p hsParams, sh *hsShared) string {
 	// one side failing must make the other fail too once its stream ends
 	done := make(chan struct{})
 	go func() { wg.Wait(); close(done) }()
-	select {
-	case <-done:
-	case <-time.After(3 * time.Second):
-		// a failed side leaves its peer waiting: end the streams and require both to return
-		cEnd.Close()
-		sEnd.Close()
+	deadline := time.After(40 * time.Second)
+	tick := time.NewTicker(50 * time.Millisecond)
+	defer tick.Stop()
+	closed := false
+wait:
+	for {
 		select {
 		case <-done:
-		case <-time.After(5 * time.Second):
+			break wait
+		case <-deadline:
 			return "ORACLE-FAIL:hang"
+		case <-tick.C:
+			// a side that failed leaves its peer waiting for input: end the streams (once), then both must return
+			if !closed && (atomic.LoadInt32(&cFailed) == 1 || atomic.LoadInt32(&sFailed) == 1) {
+				closed = true
+				time.Sleep(200 * time.Millisecond) // let alerts already written be read first
+				cEnd.Close()
+				sEnd.Close()
+			}
 		}
 	}
 	if cs.panicked || ss.panicked {
